@@ -37,11 +37,11 @@ type c19wSucc struct {
 }
 
 type c19wCase struct {
-	Kind     string     `json:"kind"`   // "workflow"
-	Chunks   int        `json:"chunks"` // chunks the producer emits (>= 1)
-	Succ     []c19wSucc `json:"succ"`   // successors of the producer
-	Cond     string     `json:"cond"`   // none | value | prefix | multi-value | multi-prefix
-	Select   []string   `json:"select"` // branch ends selected by the condition
+	Kind     string     `json:"kind"`    // "workflow"
+	Chunks   int        `json:"chunks"`  // chunks the producer emits (>= 1)
+	Succ     []c19wSucc `json:"succ"`    // successors of the producer
+	Cond     string     `json:"cond"`    // none | value | prefix | multi-value | multi-prefix
+	Select   []string   `json:"select"`  // branch ends selected by the condition
 	EndData  bool       `json:"endData"` // END takes the producer's output as a data-only input
 	Paradigm string     `json:"paradigm"`
 	InChunks []int      `json:"inChunks"`
